@@ -950,3 +950,156 @@ Section TypeAgreement.
     rewrite D. apply type_code_not_none.
   Qed.
 End TypeAgreement.
+
+(* ------------------------------------------------------------------------------------------ *)
+(** * sanity.orders *)
+
+Lemma len_flat_repeat (g : order -> N) l :
+  N.of_nat (length (flat_map (fun o => repeat o (N.to_nat (g o))) l)) = sum_N (map g l).
+Proof.
+  induction l as [|a l IH]; simpl; [reflexivity|].
+  rewrite app_length, repeat_length, Nat2N.inj_add, N2Nat.id. unfold sum_N in IH. now rewrite IH.
+Qed.
+
+Lemma nodup_orders_true l : NoDup l -> nodup_orders l = true.
+Proof.
+  induction 1 as [|x l Hnin Hn IH]; simpl; [reflexivity|]. rewrite IH, andb_true_r.
+  destruct (in_orders l x) eqn:E; [|reflexivity]. apply in_orders_iff in E. contradiction.
+Qed.
+
+Lemma sum_table s ms : Inv s ms -> sum_N (map snd (mult s)) = N.of_nat (length ms).
+Proof.
+  intro I. rewrite <- (Permutation_length (full_profile_perm s ms I)).
+  unfold full_profile. rewrite (len_flat_repeat (mget (mult s))).
+  f_equal. rewrite <- (vote_map_eq s ms I) at 1. unfold vote_map. rewrite map_map. reflexivity.
+Qed.
+
+Lemma dt_eqb_refl d : dt_eqb d d = true.
+Proof. now destruct d. Qed.
+
+Lemma Inv_sanity s ms : Inv s ms -> infer_type s = Ok (dtype s) -> sanity_ok s = true.
+Proof.
+  intros I Hty. pose proof (TA_tbl s ms I) as T.
+  unfold sanity_ok, sanity_checks. cbn [forallb]. rewrite !andb_true_iff.
+  split; [|split; [|split; [|split; [|split; [|split; [|split; [|reflexivity]]]]]]].
+  - apply Nat.eqb_eq. destruct T as (_ & -> & _). now rewrite map_length.
+  - apply N.eqb_eq. now rewrite (sum_table s ms I), (inv_nvot _ _ I).
+  - apply N.eqb_eq. exact (inv_nuniq _ _ I).
+  - apply N.leb_le. rewrite (inv_nalt _ _ I), <- (map_length fst (alts s)).
+    assert (L : length (order_alts s) <= length (map fst (alts s))).
+    { apply NoDup_incl_length; [apply dedup_nodup|]. intros a Ha. unfold order_alts in Ha.
+      apply dedup_in, in_cc in Ha. destruct Ha as [o [Ho Ha]].
+      exact (ballot_incl s ms I o Ho a Ha). }
+    lia.
+  - rewrite Hty. apply dt_eqb_refl.
+  - apply nodup_orders_true. exact (Inv_nodup_ords s ms I).
+  - apply forallb_forall. intros o Ho. unfold sanity_order.
+    destruct (ords_wf s ms I o Ho) as (_ & _ & Hn).
+    rewrite (dedup_id _ Hn). pose proof (ballot_le s ms I o Ho) as L. unfold ballot_size in L.
+    rewrite !andb_true_iff. split; [split; [split|]|].
+    + now apply N.leb_le.
+    + now apply Nat.leb_le.
+    + destruct (is_complete_type (dtype s)); [now apply N.leb_le | reflexivity].
+    + destruct (is_strict_type (dtype s)) eqn:E; [|reflexivity].
+      rewrite (dtype_spec s ms I Hty) in E.
+      assert (A : forallb strict_o (ords s) = true).
+      { destruct (forallb strict_o (ords s)); [reflexivity|].
+        now destruct (forallb (complete_o (n_alt s)) (ords s)). }
+      rewrite forallb_forall in A. exact (A o Ho).
+Qed.
+
+(* ------------------------------------------------------------------------------------------ *)
+(** * Boolean well-formedness (to exhibit concrete well-formed histories) *)
+
+Definition wf_voteb (o : order) : bool :=
+  negb (match o with [] => true | _ => false end)
+  && forallb (fun c => negb (match c with [] => true | _ => false end)) o
+  && (length (dedup (concat o)) =? length (concat o)).
+
+Lemma dedup_len_nodup l : length (dedup l) = length l -> NoDup l.
+Proof.
+  induction l as [|a l IH]; simpl; [constructor|].
+  destruct (existsb (N.eqb a) l) eqn:E.
+  - intro H. exfalso.
+    assert (L : length (dedup l) <= length l).
+    { apply NoDup_incl_length; [apply dedup_nodup | intros x Hx; now apply dedup_in]. }
+    lia.
+  - simpl. intro H. constructor; [|apply IH; lia].
+    intro Hin. assert (X : existsb (N.eqb a) l = true).
+    { apply existsb_exists. exists a. split; [assumption | apply N.eqb_refl]. }
+    congruence.
+Qed.
+
+Lemma wf_voteb_sound o : wf_voteb o = true -> wf_vote o.
+Proof.
+  unfold wf_voteb. rewrite !andb_true_iff. intros [[H1 H2] H3]. split; [|split].
+  - destruct o; [discriminate | discriminate].
+  - apply Forall_forall. intros c Hc. rewrite forallb_forall in H2. specialize (H2 c Hc).
+    destruct c; [discriminate | discriminate].
+  - apply dedup_len_nodup. now apply Nat.eqb_eq.
+Qed.
+
+Definition wf_opb (p : op) : bool :=
+  match p with
+  | AppendVoteMap vm => forallb (fun e => wf_voteb (fst e) && (1 <=? snd e)%N) vm
+  | _ => forallb wf_voteb (votes p)
+  end.
+
+Lemma wf_opb_sound p : wf_opb p = true -> wf_op p.
+Proof.
+  destruct p; cbn [wf_opb wf_op]; intro H; apply Forall_forall; intros x Hx; rewrite forallb_forall in H;
+    specialize (H x Hx); try (now apply wf_voteb_sound).
+  apply andb_true_iff in H. destruct H as [H1 H2]. split; [now apply wf_voteb_sound | now apply N.leb_le].
+Qed.
+
+Lemma wf_opsb_sound ops : forallb wf_opb ops = true -> wf_ops ops.
+Proof.
+  intro H. apply Forall_forall. intros p Hp. rewrite forallb_forall in H. now apply wf_opb_sound, H.
+Qed.
+
+(* ------------------------------------------------------------------------------------------ *)
+(** * The invariant spelled out; the samplers *)
+
+Definition Inv_explicit (s : state) (ms : list order) : Prop :=
+  NoDup (map fst (mult s)) /\
+  ords s = map fst (mult s) /\
+  (forall o, lookup (mult s) o = if (cnt ms o =? 0)%N then None else Some (cnt ms o)) /\
+  n_vot s = N.of_nat (length ms) /\
+  n_uniq s = N.of_nat (length (ords s)) /\
+  NoDup (map fst (alts s)) /\
+  (forall a, In a (map fst (alts s)) <-> exists o, In o ms /\ In a (concat o)) /\
+  (forall a t, In (a, t) (alts s) -> t = alt_name a) /\
+  n_alt s = N.of_nat (length (alts s)) /\
+  Forall wf_vote ms /\
+  (infer_type s = Ok (dtype s) \/ s = init).
+
+Lemma Inv_explicit_iff s ms : Inv s ms <-> Inv_explicit s ms.
+Proof.
+  unfold Inv_explicit. split.
+  - intros [(T1 & T2 & T3) V U (A1 & A2 & A3) NA W Ty].
+    repeat (split; [assumption|]). split; [|auto].
+    intro a. now rewrite A2, in_cc.
+  - intros (T1 & T2 & T3 & V & U & A1 & A2 & A3 & NA & W & Ty).
+    constructor; try assumption.
+    + now split; [|split].
+    + split; [assumption|]. split; [|assumption]. intro a. now rewrite A2, in_cc.
+Qed.
+
+Lemma wf_strictify l : l <> [] -> NoDup l -> wf_vote (strictify l).
+Proof.
+  intros Hne Hn. split; [|split].
+  - destruct l; [contradiction | discriminate].
+  - apply Forall_forall. intros c Hc. apply in_map_iff in Hc. destruct Hc as [a [<- _]]. discriminate.
+  - now rewrite concat_strictify.
+Qed.
+
+(** what prefsampling_ordinal_wrapper returns: a map from strict orders (tuples of singletons over
+    distinct alternatives) to positive counts.  Any such map is a well-formed AppendVoteMap. *)
+Definition sampler_output (vm : list (order * N)) : Prop :=
+  Forall (fun e => (exists l, fst e = strictify l /\ l <> [] /\ NoDup l) /\ (1 <= snd e)%N) vm.
+
+Lemma sampler_wf vm : sampler_output vm -> wf_op (AppendVoteMap vm).
+Proof.
+  intro H. simpl. eapply Forall_impl; [|exact H]. intros e [[l (-> & Hne & Hn)] Hk].
+  split; [now apply wf_strictify | assumption].
+Qed.
